@@ -72,6 +72,7 @@ func (m *MLDv2MulticastListenerQueryMessage) DecodeFromBytes(data []byte, df gop
 	m.QueriersQueryIntervalCode = data[21]
 
 	m.NumberOfSources = binary.BigEndian.Uint16(data[22:24])
+	m.SourceAddresses = nil
 
 	var end int
 	for i := uint16(0); i < m.NumberOfSources; i++ {
